@@ -12,7 +12,10 @@ META = dict(
          "must be exactly the image of the transactions held.",
     note="Seven colliding transfer templates and four producer registrations colliding on owner key, node key and nickname "
          "(real RegisterProducer transactions with 5000 ELA deposits funded from the genesis coinbase; the DPoS state processes "
-         "them from the first block on); CR / proposal slots are checked to stay empty, not exercised; the pool reacts to chain notifications through a harness copy of "
+         "them from the first block on).  The other 30+ conflict slots (side-chain hashes of every withdrawal layout, deposit returns, "
+         "CR keys / DIDs / nicknames, every proposal resource, special transactions, stake / NFT operations) are specified per "
+         "transaction kind in PoolKeys.tla (Claims) and replayed at conflict-manager level (VerifyTx / AppendTx / block cleanup) with "
+         "the complete slot contents compared after every step.  The pool reacts to chain notifications through a harness copy of "
          "netsync/manager.go's handler (the sync manager needs a P2P server); pool size limit lowered through the verif knob.",
     technique="TLA+ mempool-over-block-tree model checked by TLC + behaviour replay on a full-stack node with internal-index "
               "snapshot comparison",
@@ -106,7 +109,14 @@ def run(chk):
     vf.write_json_lines(p, [bad])
     recs, _ = vf.run_driver(binary, ["mempool", p, "0", "1", "100000"], env={"TMPDIR": "/dev/shm"})
     chk.selftest("replay: expected pool membership corrupted", any(x.get("kind") == "violation" for x in recs))
-    chk.assumptions += ["TransferAsset and RegisterProducer transactions; CR and proposal conflict slots must stay empty",
+    # what every other transaction kind claims in the per-resource indexes (PoolKeys.tla)
+    import importlib.util
+    _sp = importlib.util.spec_from_file_location("C34_keys", os.path.join(os.path.dirname(os.path.abspath(__file__)), "C34_keys.py"))
+    keys = importlib.util.module_from_spec(_sp)
+    _sp.loader.exec_module(keys)
+    keys.run_all(chk)
+    chk.assumptions += ["full-pool behaviours: TransferAsset and RegisterProducer transactions (CR and proposal conflict slots must stay "
+                        "empty there); the key functions of all 39 conflict slots are exercised at conflict-manager level (PoolKeys.tla)",
                         "harness copy of netsync/manager.go handleBlockchainEvents drives the pool",
                         "template sizes in Mempool.tla TxSize are checked against the real serialisation on every run"]
     return chk.finish(exhaustive=False)
